@@ -517,4 +517,23 @@ theorem run_preserves (cfg : Cfg δ) (hproj : ∀ d, cfg.proj (cfg.proj d) = cfg
     obtain ⟨hi', hr'⟩ := step_preserves cfg hproj hi hr c
     exact ih _ _ hi' hr'
 
+/-- per-id form of the refinement (used by `Props/C04` and `Props/C14`) -/
+theorem contents_refines_aux (cfg : Cfg δ) (hproj : ∀ d, cfg.proj (cfg.proj d) = cfg.proj d)
+    (mem : Bool) (cs : List (Call ι δ)) (i : ι) :
+    copies (run cfg mem cs).segs i = (alGet (Spec.run cfg.proj mem cs).committed i).toList := by
+  obtain ⟨hi, hr⟩ := run_preserves cfg hproj mem cs
+  unfold copies
+  rw [filter_key_of_nodup hi.seg.nodup]
+  congr 1
+  apply Option.ext
+  intro d
+  constructor
+  · intro h
+    exact (hr.contents i d).mp (alGet_some_mem h)
+  · intro h
+    exact alGet_of_mem_nodup hi.seg.nodup ((hr.contents i d).mpr h)
+
+/-- identity projection on naturals (witnesses) -/
+def cfgId : Cfg Nat := { proj := id, safe := true, reingestOk := fun _ => true }
+
 end SL.Contents
